@@ -193,6 +193,13 @@ type Config struct {
 	// by an interpretation section Interp1; the other members and Interp follow.
 	InterpSplit int
 	Interp1     []string
+	// InterpBlank is the white space the interpretation clauses are rendered
+	// with between their words (the grammar accepts any blank run).
+	InterpBlank string
+	// EarlyMention names a member that is first mentioned at the very top of
+	// the audience section (so it precedes the others in the audience order)
+	// although its auditing clauses come later.
+	EarlyMention string
 	VarTypes map[string]Typ
 	VarOrder []string
 }
@@ -310,10 +317,19 @@ func (g *Gen) Config() *Config {
 	nm := 1 + g.R.Intn(g.MaxMembers)
 	names := []string{"al", "bo", "cy", "di"}
 	nvar := 0
+	early := -1
+	if nm > 1 && g.R.Intn(3) == 0 {
+		early = 1 + g.R.Intn(nm-1)
+		c.EarlyMention = names[early]
+	}
 	for i := 0; i < nm; i++ {
 		m := &Member{Name: names[i]}
 		// activation condition
-		switch g.R.Intn(8) {
+		kind := g.R.Intn(8)
+		if i == early && g.R.Intn(5) < 3 {
+			kind = 6 // prefer a condition over a variable computed by a member that comes later in the audience order
+		}
+		switch kind {
 		case 0:
 			m.CondKind = "none"
 		case 1, 2:
@@ -330,6 +346,18 @@ func (g *Gen) Config() *Config {
 			m.CondK = int64(1 + g.R.Intn(4))
 			m.Cond = Bin(">", V(a, "s"), Num(m.CondK))
 		case 6:
+			var nv []string
+			for _, v := range c.VarOrder {
+				if c.VarTypes[v] == TNum {
+					nv = append(nv, v)
+				}
+			}
+			if len(nv) > 0 && (i == early || g.R.Intn(2) == 0) {
+				m.CondKind = "comp"
+				m.CondK = int64(g.R.Intn(5))
+				m.Cond = Bin(g.pick([]string{">", "<="}), V("", nv[g.R.Intn(len(nv))]), Num(m.CondK))
+				break
+			}
 			m.CondKind = "t"
 			m.CondK = int64(1 + g.R.Intn(5))
 			m.Cond = Bin(g.pick([]string{">", "<"}), V("", "t"), Num(m.CondK))
@@ -425,8 +453,15 @@ func (g *Gen) Config() *Config {
 			}
 			return out
 		}
-		c.Interp1 = gen(c.Members[:c.InterpSplit])
+		avail1 := append([]*Member(nil), c.Members[:c.InterpSplit]...)
+		for _, m := range c.Members[c.InterpSplit:] {
+			if m.Name == c.EarlyMention {
+				avail1 = append(avail1, m) // already declared by its early mention
+			}
+		}
+		c.Interp1 = gen(avail1)
 		c.Interp = gen(c.Members)
+		c.InterpBlank = []string{" ", " ", "  ", "\t", " \t "}[g.R.Intn(5)]
 	}
 	return c
 }
@@ -448,6 +483,9 @@ func (c *Config) Text() string {
 		first, rest = c.Members[:c.InterpSplit], c.Members[c.InterpSplit:]
 	}
 	b.WriteString("audience\n")
+	if c.EarlyMention != "" {
+		b.WriteString("  " + c.EarlyMention + " measures things\n")
+	}
 	for _, m := range first {
 		for _, cl := range m.ClauseOrdr {
 			b.WriteString("  " + cl + "\n")
@@ -457,7 +495,7 @@ func (c *Config) Text() string {
 	if len(c.Interp1) > 0 {
 		b.WriteString("interpretation\n")
 		for _, cl := range c.Interp1 {
-			b.WriteString("  " + cl + "\n")
+			b.WriteString("  " + c.blank(cl) + "\n")
 		}
 		b.WriteString("end\n")
 	}
@@ -473,11 +511,18 @@ func (c *Config) Text() string {
 	if len(c.Interp) > 0 {
 		b.WriteString("interpretation\n")
 		for _, cl := range c.Interp {
-			b.WriteString("  " + cl + "\n")
+			b.WriteString("  " + c.blank(cl) + "\n")
 		}
 		b.WriteString("end\n")
 	}
 	return b.String()
+}
+
+func (c *Config) blank(cl string) string {
+	if c.InterpBlank == "" {
+		return cl
+	}
+	return strings.Join(strings.Fields(cl), c.InterpBlank)
 }
 
 var modeCoq = map[string]string{"single": "ASingle", "first": "AFirst", "last": "ALast", "top": "ATop", "bottom": "ABottom"}
@@ -659,6 +704,9 @@ func (c *Config) CoqItems() string {
 	split := c.InterpSplit
 	if split <= 0 || split > len(c.Members) {
 		split = len(c.Members)
+	}
+	if c.EarlyMention != "" {
+		items = append(items, "IMember "+coqStr(c.EarlyMention))
 	}
 	for _, m := range c.Members[:split] {
 		items = append(items, "IMember "+coqStr(m.Name))
